@@ -918,6 +918,8 @@ def _inline_new_helpers(trees, known):
         fn, owner, body_, static, single, is_gen = helpers[hname]
         if is_gen != (sink == 'yieldfrom'):
             return None
+        if sink == 'whiletest':
+            single = False   # go through conv(): every return is delivered as break / fall-through
         if sink == 'yieldfrom':
             sink = 'expr'
         a = fn.args
@@ -962,6 +964,20 @@ def _inline_new_helpers(trees, known):
                 out.append(ast.Return(value=None))
         else:
             def deliver(value):
+                if sink == 'whiletest':
+                    # the helper is the test of a `while`: False -> leave the loop, True -> go on with the body, anything else -> leave unless it holds
+                    if isinstance(value, ast.Constant):
+                        return [] if value.value else [ast.Break()]
+                    if value is None:
+                        return [ast.Break()]
+                    flip = {ast.Lt: ast.GtE, ast.GtE: ast.Lt, ast.Gt: ast.LtE, ast.LtE: ast.Gt, ast.Eq: ast.NotEq, ast.NotEq: ast.Eq, ast.Is: ast.IsNot, ast.IsNot: ast.Is, ast.In: ast.NotIn, ast.NotIn: ast.In}
+                    if isinstance(value, ast.Compare) and len(value.ops) == 1 and type(value.ops[0]) in flip:
+                        neg = ast.Compare(left=value.left, ops=[flip[type(value.ops[0])]()], comparators=value.comparators)
+                    elif isinstance(value, ast.UnaryOp) and isinstance(value.op, ast.Not):
+                        neg = value.operand
+                    else:
+                        neg = ast.UnaryOp(op=ast.Not(), operand=value)
+                    return [ast.If(test=neg, body=[ast.Break()], orelse=[])]
                 if sink == 'expr':
                     return [ast.Expr(value)] if value is not None and not isinstance(value, (ast.Name, ast.Constant)) else []
                 new = copy.copy(sink[1])
@@ -1051,6 +1067,22 @@ def _inline_new_helpers(trees, known):
             for i_, st in enumerate(stmts):
                 nxt_ = stmts[i_ + 1] if i_ + 1 < len(stmts) else None
                 rep = None
+                # `recv.m(h(..))` / `x = f(h(..))` with h a new helper as a direct argument, preceded only by side-effect-free expressions: hoist into a temporary first
+                outer = st.value if isinstance(st, (ast.Expr, ast.Assign, ast.Return)) and isinstance(getattr(st, 'value', None), ast.Call) else None
+                if outer is not None and call_of(outer) is None and (not isinstance(outer.func, ast.Attribute) or _simple_expr(outer.func.value)):
+                    for ai, a_ in enumerate(outer.args):
+                        if call_of(a_) and all(_simple_expr(b_) for b_ in outer.args[:ai]):
+                            tmp = f'_ret_{call_of(a_).strip("_")}'
+                            pre_asg = ast.copy_location(ast.Assign(targets=[ast.Name(tmp, ast.Store())], value=a_), st)
+                            ast.fix_missing_locations(pre_asg)
+                            rep0 = expand(a_, call_of(a_), names, ('assign', pre_asg, None))
+                            if rep0 is not None:
+                                outer.args[ai] = ast.copy_location(ast.Name(tmp, ast.Load()), a_)
+                                self.count += 1
+                                out.extend(rep0)
+                            break
+                        if not _simple_expr(a_):
+                            break
                 if isinstance(st, ast.Expr) and isinstance(st.value, ast.YieldFrom):
                     h = call_of(st.value.value)
                     if h:
@@ -1067,6 +1099,12 @@ def _inline_new_helpers(trees, known):
                     h = call_of(st.value)
                     if h:
                         rep = expand(st.value, h, names, 'return')
+                if rep is None and isinstance(st, ast.While) and not st.orelse and call_of(st.test):
+                    pre = expand(st.test, call_of(st.test), names, 'whiletest')
+                    if pre is not None:
+                        st.test = ast.copy_location(ast.Constant(True), st.test)
+                        st.body = pre + st.body
+                        self.count += 1
                 if rep is None:
                     out.append(st)
                 else:
@@ -1240,6 +1278,7 @@ class Program:
             ast.fix_missing_locations(tree)
             tree = _DeWalrus().visit(tree)
             tree = _StatementForms().visit(tree)
+            tree = _StatementForms().visit(tree)   # forms nested in what the first pass produced (e.g. a conditional expression inside a conditional expression)
             tree = _SplitOrGuards().visit(tree)
             tree = _Accumulate().visit(tree)
             tree = _CanonCompare().visit(tree)
